@@ -40,6 +40,15 @@ def main(argv):
 	for sid in ids:
 		prop = sid.split('-')[0]
 		patch = os.path.join(SEEDED, sid, 'patch.diff')
+		try:
+			meta = json.load(open(os.path.join(SEEDED, sid, 'meta.json')))
+		except Exception:
+			meta = {}
+		if meta.get('obsolete'):
+			results.setdefault(sid, {})['obsolete'] = meta['obsolete']
+			print('%s obsolete: %s' % (sid, meta['obsolete'][:100]), flush=True)
+			continue
+		results.setdefault(sid, {}).pop('error', None)
 		rc, out = sh('git apply %s' % patch, cwd=repo)
 		if rc:
 			results.setdefault(sid, {})['error'] = 'patch does not apply: ' + out[-200:]
